@@ -271,6 +271,27 @@ func (c *Ctx) strippedOctetsTested(fn *ssa.Function, src string) {
 func (c *Ctx) rangeAllZero(fn *ssa.Function, prefix, label string) {
 	w := c.W
 	found := false
+	top := fn
+	// the scan may sit in a helper called directly (one level): then a non-zero element must make the helper refuse,
+	// and the function must have no success exit once the helper refused
+	withHelperContexts(top, func(fn *ssa.Function, cl *ssa.Call) {
+		tgt := SuccessReturn(0, nil)
+		if cl != nil {
+			idx, acc := helperPolarity(top, fn, cl, SuccessReturn(0, nil))
+			if idx < 0 {
+				return
+			}
+			tgt = acceptTarget(idx, acc)
+		}
+		c.rangeAllZeroIn(fn, prefix, label, tgt, &found)
+	})
+	c.Check(found, "R-VSET", short(FuncName(top)), "loop found: "+label, w.Pos(top.Pos()), "")
+}
+
+func (c *Ctx) rangeAllZeroIn(fn *ssa.Function, prefix, label string, tgt func(ssa.Instruction, resolver) bool, fp *bool) {
+	w := c.W
+	found := *fp
+	defer func() { *fp = found }()
 	for _, b := range fn.Blocks {
 		for _, in := range b.Instrs {
 			ld, ok := in.(*ssa.UnOp)
@@ -304,7 +325,7 @@ func (c *Ctx) rangeAllZero(fn *ssa.Function, prefix, label string) {
 					if bo.Op == token.EQL {
 						succ = 1
 					}
-					c.Cut(CutSpec{Rule: "R-VSET", Fn: fn, Label: "a non-zero element is rejected: " + label, StartEdges: []EdgeRef{{B: ifi.Block(), Succ: succ}}, Target: SuccessReturn(0, nil), Cut: func(Fact) bool { return false }, MinTargets: -1})
+					c.Cut(CutSpec{Rule: "R-VSET", Fn: fn, Label: "a non-zero element is rejected: " + label, StartEdges: []EdgeRef{{B: ifi.Block(), Succ: succ}}, Target: tgt, Cut: func(Fact) bool { return false }, MinTargets: -1})
 				}
 			}
 			// the loop covers index 0..len-1: induction phi starts at -1 (range) and steps by 1
@@ -316,7 +337,6 @@ func (c *Ctx) rangeAllZero(fn *ssa.Function, prefix, label string) {
 			}
 		}
 	}
-	c.Check(found, "R-VSET", short(FuncName(fn)), "loop found: "+label, w.Pos(fn.Pos()), "")
 }
 
 func stripIdx(v ssa.Value) ssa.Value {
